@@ -35,7 +35,7 @@ def ENCODED():
     import ethosu.vela.high_level_command_to_npu_op as h2n
     import ethosu.vela.architecture_features as af
 
-    return [u.get_strides, u.get_address, u.get_address_range, u.get_address_ranges, g.check_mem_limits, t.Tensor.addresses_for_rolling_buffer,
+    return [h2n.create_weights, g.generate_weights, g.generate_biases, u.get_strides, u.get_address, u.get_address_range, u.get_address_ranges, g.check_mem_limits, t.Tensor.addresses_for_rolling_buffer,
             t.Tensor.address_for_coordinate, t.Tensor.get_strides, t.Tensor.get_augmented_coord, __import__('ethosu.vela.graph_optimiser_util', fromlist=['x'])._avoid_nhcwb16_for_shapes, h2n.get_region, h2n.get_mem_limits_for_regions,
             af.ArchitectureFeatures.mem_type_size, af.ArchitectureFeatures.is_spilling_enabled]
 
@@ -270,7 +270,23 @@ def lr_rolling(V, **params):
     return c03.lr_rolling(V, **params)
 
 
-FUNCS = {"fm_in_tensor": fm_in_tensor, "lr_rolling": lr_rolling, "nhcwb16_shapes": nhcwb16_shapes, "footprint": footprint, "mem_limits": mem_limits, "rolling": rolling, "regions": regions}
+def weight_ranges(V, **params):
+    """weight and scale ranges of an operation name the region and bytes of the tensor that really holds them (harness/c08.py weight_ranges;
+    registered here because a range addressed through the wrong region reads outside that region's published extent)"""
+    from harness import c08
+
+    return c08.weight_ranges(V, **params)
+
+
+def idle_core(V, **params):
+    """an operation with fewer weight/scale ranges than cores programs length 0 for the idle core instead of leaving the previous operation's
+    base and length in its registers (harness/c06.py pair, weights/biases groups on the two-core accelerator)"""
+    from harness import c06
+
+    return c06.pair(V, **params)
+
+
+FUNCS = {"weight_ranges": weight_ranges, "idle_core": idle_core, "fm_in_tensor": fm_in_tensor, "lr_rolling": lr_rolling, "nhcwb16_shapes": nhcwb16_shapes, "footprint": footprint, "mem_limits": mem_limits, "rolling": rolling, "regions": regions}
 
 
 def instances(tier, seed):
@@ -300,6 +316,13 @@ def instances(tier, seed):
     for cin in (1, 3):
         for md, od in (("int16", "int8"), ("int8", "int16")):
             out.append(dict(key="lr_rolling/cin%d/%s_%s" % (cin, md, od), fn="lr_rolling", params=dict(cin=cin, mid_dtype=md, out_dtype=od)))
+    from harness import c08
+
+    for inst in c08.instances(tier, seed):
+        if inst["fn"] == "weight_ranges":
+            out.append(dict(key=inst["key"], fn="weight_ranges", params=inst["params"]))
+    for gname in ("weights", "biases"):
+        out.append(dict(key="idle_core/%s" % gname, fn="idle_core", params=dict(accel="Ethos_U65_512", kind="conv", group=gname, light=True), weight=100))
     for nprod, ncons in ((1, 1), (1, 2), (2, 1), (1, 0)):
         out.append(dict(key="nhcwb16_shapes/p%d_c%d" % (nprod, ncons), fn="nhcwb16_shapes", params=dict(nprod=nprod, ncons=ncons)))
     return out
